@@ -37,6 +37,7 @@ type verifWALModel struct {
 	pageN        uint32
 	wf           *os.File
 
+	txSize      uint32 // size the transaction being written will commit (0: unknown / uncommitted)
 	anyValidity bool // frames may carry a wrong salt or checksum
 	wholeFrames bool // frames are written with one write instead of header + body
 }
@@ -93,6 +94,13 @@ func (m *verifWALModel) verifScan(wal []byte) (frames []verifFrame, end int64, c
 // verifWriteFrame appends one frame at off with symbolic validity.
 func (m *verifWALModel) verifWriteFrame(ctx context.Context, db *DB, off int64, pgno, commit uint32, c1, c2 uint32) (uint32, uint32, []byte) {
 	data := rt.Bytes("frame", verifP)
+	if pgno == 1 {
+		size := m.txSize
+		if size == 0 {
+			size = m.pageN
+		}
+		verifHeaderPage(data, size, true) // page 1 is a database header for the size being committed
+	}
 	validity := 0
 	if m.anyValidity {
 		validity = rt.Choose("frame.validity", 3) // valid / other salt / other checksum
@@ -218,15 +226,19 @@ func (m *verifWALModel) verifC03Tx(ctx context.Context, w *verifWorld, maxF int,
 	c1, c2 := m.c1, m.c2
 	maxPg := int(m.pageN) + 1
 	var written []uint32
+	m.txSize = 0
+	if mustCommit || rt.Choose("tx.commit", 2) == 0 {
+		c := int(m.pageN) - 1 + rt.Choose("commit.delta", 3)
+		if c < 1 {
+			rt.Assume(false)
+		}
+		m.txSize = uint32(c)
+	}
 	for i := 0; i < nf; i++ {
 		pgno := uint32(1 + rt.Choose("frame.pgno", maxPg))
 		commit := uint32(0)
-		if i == nf-1 && (mustCommit || rt.Choose("tx.commit", 2) == 0) {
-			c := int(m.pageN) - 1 + rt.Choose("commit.delta", 3)
-			if c < 1 {
-				rt.Assume(false)
-			}
-			commit = uint32(c)
+		if i == nf-1 {
+			commit = m.txSize
 		}
 		c1, c2, _ = m.verifWriteFrame(ctx, db, off, pgno, commit, c1, c2)
 		off += verifFrameSize
